@@ -157,7 +157,12 @@ def gen_case(run_seed: int, tier: str, index: int = 0) -> dict:
         fr_ = st.rng("fs-faults")
         kind = fr_.choice(["write", "close", "close", "flush", "open_w", "copy_file_range", "replace"])
         faults["mode"] = "fs"
-        faults["fs"] = {"kind": kind, "nth": fr_.choice([0, 0, 1, 2, 3]), "errno": fr_.choice(fsseam.FAULTABLE[kind]), "mode": "raise"}
+        if fr_.random() < 0.3:
+            # a REAL fault instead: the kernel lets no file grow beyond this size while the save runs (RLIMIT_FSIZE)
+            total_ = sum(tensors.nbytes_of(s_["dtype"], s_["n"]) for s_ in specs)
+            faults["rlimit_fsize"] = max(1, fr_.choice([total_ - 1, total_ // 2, total_ // 3, 5, 64]))
+        else:
+            faults["fs"] = {"kind": kind, "nth": fr_.choice([0, 0, 1, 2, 3]), "errno": fr_.choice(fsseam.FAULTABLE[kind]), "mode": "raise"}
     else:
         faults["mode"] = "none" if fmode != "callback" else fmode
     sim = {
@@ -283,6 +288,15 @@ def _run(case: dict, root: str, res: dict) -> None:
     unfinished_at_return: list = []
     held_at_return = 0
     seams = workload.Seams(case, sched, seam, streams)
+    rl_prev = None
+    if faults.get("rlimit_fsize"):
+        import resource
+        import signal as _signal
+
+        _signal.signal(_signal.SIGXFSZ, _signal.SIG_IGN)
+        rl_prev = resource.getrlimit(resource.RLIMIT_FSIZE)
+        resource.setrlimit(resource.RLIMIT_FSIZE, (int(faults["rlimit_fsize"]), rl_prev[1]))
+        _inc(stats, "fault_kernel_file_size_limit_armed")
     with seams:
         if hasattr(_ed, "_ByteBudget"):
             seams.rb.set(_ed, "_ByteBudget", budgets.wrap(_ed._ByteBudget))
@@ -301,6 +315,10 @@ def _run(case: dict, root: str, res: dict) -> None:
                 except SimAbort:
                     aborted = True
         finally:
+            if rl_prev is not None:
+                import resource
+
+                resource.setrlimit(resource.RLIMIT_FSIZE, rl_prev)
             sched.close()
     res["steps"] = sched.steps
     res["schedule_digest"] = digest(sched.trace)
@@ -371,11 +389,11 @@ def _run(case: dict, root: str, res: dict) -> None:
     expects_fault = faults.get("mode") in ("tensor", "two", "callback")
     if raised is not None:
         _inc(stats, "outcome_raised")
-        fault_possible = any(s.get("fail") for s in case["tensors"]) or faults.get("callback_fail_at") is not None or bool(seam.fired)
+        fault_possible = any(s.get("fail") for s in case["tensors"]) or faults.get("callback_fail_at") is not None or bool(seam.fired) or bool(faults.get("rlimit_fsize"))
         ok_type = False
         e, hops = raised, 0
         while e is not None and hops < 10:
-            if isinstance(e, injected) or (isinstance(e, (OSError, MemoryError)) and ("injected failure" in str(e) or "[injected]" in str(e))):
+            if isinstance(e, injected) or (isinstance(e, (OSError, MemoryError)) and ("injected failure" in str(e) or "[injected]" in str(e))) or (isinstance(e, OSError) and faults.get("rlimit_fsize")):
                 ok_type = True
                 break
             e, hops = (e.__cause__ or e.__context__), hops + 1
